@@ -23,7 +23,7 @@ RULE = ("1-8 recording systems (mixed priorities/windows); completion point = (s
 COMPONENTS = {"real": ["ECAgent.Core.Model.complete/is_running/__bool__/execute", "ECAgent.Core.SystemManager.execute_systems",
                        "add_system/remove_system after completion"],
               "stub": ["System.execute bodies are harness recorders; the completer calls model.complete() when scripted"]}
-PROBES = ["strictness_flag_truthy_but_not_the_True_singleton", "completer_first", "completer_middle", "completer_last", "complete_outside", "complete_at_t0",
+PROBES = ["strictness_flag_truthy_but_not_the_True_singleton", "strict_request_on_a_running_model", "completer_first", "completer_middle", "completer_last", "complete_outside", "complete_at_t0",
           "multi_step_spans_completion", "throw_error_raised", "add_after_complete", "remove_after_complete",
           "due_system_skipped", "completer_raises_after_complete", "completed_by_member_of_a_private_system_manager", "request_from_inside_the_completing_timestep", "raising_request_inside_an_iterator", "system_bound_to_another_model", "falsy_systems", "systems_returning_values_from_execute",
           "logging_custom_logger", "logging_level_warning", "logging_disable_info", "logging_disable_critical", "logging_level_debug"]
@@ -98,7 +98,11 @@ def generate(rng, tier):
     r = rng.random()
     log = None if r < 0.7 else rng.choice(["custom_logger", "custom_logger", "level_warning", "disable_info", "disable_critical",
                                             "level_debug"])
-    return dict({"systems": systems, "complete": comp, "pre": pre, "tail": tail, "logging": log}, **gen_flavour(rng))
+    sc = dict({"systems": systems, "complete": comp, "pre": pre, "tail": tail, "logging": log}, **gen_flavour(rng))
+    # (drawn last) a driver loop that steps the scheduler in strict mode: `execute_systems(throw_error=True)` on a RUNNING model is
+    # an ordinary step - the documented error is for requests on a complete model, not for the timestep in which completion happens
+    sc["pre_strict"] = rng.random() < 0.25
+    return sc
 
 
 BAD = {"zero": 0, "neg": -3, "float": 1.5, "str": "2", "none": None}
@@ -241,7 +245,11 @@ def _execute(sc, ctx):
         nonlocal done, frozen_clock, frozen_log
         t0 = ref.t
         before = len(w.log)
-        st, v = ctx.call(sm.execute_systems) if kind == "bare" else ctx.call(m.execute, n)
+        if kind == "bare" and sc.get("pre_strict"):
+            ctx.probe("strict_request_on_a_running_model")
+            st, v = ctx.call(sm.execute_systems, throw_error=True)
+        else:
+            st, v = ctx.call(sm.execute_systems) if kind == "bare" else ctx.call(m.execute, n)
         if kind == "bare":
             n = 1
         if st != "ok":
